@@ -5,7 +5,7 @@ from absn import *
 import common as C
 
 PROP = 'C14'
-LEAN_MODULES = ['PMV.Props.C14', 'PMV.Props.C14Gen']
+LEAN_MODULES = ['PMV.Props.C14', 'PMV.Props.C14Gen', 'PMV.Gen.TvlRed', 'PMV.Lemmas.RedFold']
 PARALLEL = True
 MANIFEST = {
     'text': 'Kernel-checked theorems (PMV/Props/C14.lean) that the code-shaped element functions and lane reductions of the '
